@@ -19,22 +19,27 @@ import (
 	"sort"
 	"strings"
 	"testing"
+	"time"
 
 	corev1 "k8s.io/api/core/v1"
 	metav1 "k8s.io/apimachinery/pkg/apis/meta/v1"
 	"k8s.io/apimachinery/pkg/runtime"
 	"k8s.io/apimachinery/pkg/types"
+	"k8s.io/client-go/util/workqueue"
 	"pgregory.net/rapid"
 	"sigs.k8s.io/controller-runtime/pkg/client"
+	kevent "sigs.k8s.io/controller-runtime/pkg/event"
 	"sigs.k8s.io/controller-runtime/pkg/manager"
 	"sigs.k8s.io/controller-runtime/pkg/reconcile"
 
 	xpv1 "github.com/crossplane/crossplane-runtime/apis/common/v1"
+	"github.com/crossplane/crossplane-runtime/pkg/logging"
 	"github.com/crossplane/crossplane-runtime/pkg/resource"
 
 	v1 "github.com/crossplane/crossplane/apis/apiextensions/v1"
 	"github.com/crossplane/crossplane/internal/controller/apiextensions/composite"
 	"github.com/crossplane/crossplane/internal/controller/apiextensions/composition"
+	"github.com/crossplane/crossplane/internal/controller/apiextensions/definition"
 	"github.com/crossplane/crossplane/internal/verifenv"
 	"github.com/crossplane/crossplane/internal/verifkit"
 	"github.com/crossplane/crossplane/internal/verifsim"
@@ -273,13 +278,25 @@ type world struct {
 	xrs  []xrSlot
 	hist []string
 
+	// Watch-driven XR reconciles. pending are CompositionRevision create events not yet delivered
+	// to the XR controller's watch handler; queue is the XR controller's work queue (XR names);
+	// unnotified counts changes of revisions for which no create event exists (renumbering,
+	// adoption, loss of owner references); fetchEpoch is the value of unnotified at an XR's last
+	// reconcile that was not cut short by an injected fault.
+	pending    []*v1.CompositionRevision
+	queue      map[string]bool
+	unnotified int
+	fetchEpoch map[string]int
+	label      func(string) // evidence labels (nil in pinned tests)
+
 	// per-history statistics
 	renumbers, adoptions, creates, strips, faultHits int
 }
 
 func newWorld(pool []content, first int, fail func(string, ...any)) *world {
 	w := &world{fail: fail, sim: verifsim.New(verifsim.NewScheme()), pool: pool, cur: first,
-		specJSON: map[int]string{}, revOf: map[int]string{}, ofRev: map[string]int{}, done: map[int]bool{}, seen: map[int]bool{}}
+		specJSON: map[int]string{}, revOf: map[int]string{}, ofRev: map[string]int{}, done: map[int]bool{}, seen: map[int]bool{},
+		queue: map[string]bool{}, fetchEpoch: map[string]int{}}
 	for i := 0; i < 3; i++ {
 		w.xrs = append(w.xrs, xrSlot{name: fmt.Sprintf("xr%d", i)})
 	}
@@ -356,6 +373,12 @@ func (w *world) monitor(v *verifsim.View, wr *verifsim.Write) {
 		}
 		w.revOf[w.cur] = name
 		w.ofRev[name] = w.cur
+		// The watch of the XR controller will see a create event with this object.
+		ev := &v1.CompositionRevision{}
+		if err := runtime.DefaultUnstructuredConverter.FromUnstructured(wr.After, ev); err != nil {
+			panic(err)
+		}
+		w.pending = append(w.pending, ev)
 	case wr.Removed || wr.After == nil:
 		v.Violate("history: revision %s was deleted by %s", name, wr.Actor)
 	default:
@@ -365,6 +388,11 @@ func (w *world) monitor(v *verifsim.View, wr *verifsim.Write) {
 		}
 		if a > b {
 			w.renumbers++
+		}
+		if a != b || verifsim.ControllerUID(wr.Before) != verifsim.ControllerUID(wr.After) {
+			// Which revision is the highest-numbered controlled one may change here, and the XR
+			// controller's watch handler only handles create events.
+			w.unnotified++
 		}
 		if sb, sa := specMinusRevision(wr.Before), specMinusRevision(wr.After); sb != sa {
 			v.Violate("immutable: %s %s edited the spec of revision %s beyond its number:\n before %s\n after  %s", wr.Actor, wr.Verb, name, sb, sa)
@@ -622,6 +650,7 @@ func (w *world) xrSet(i, pol int, sel map[string]string) {
 		panic(err)
 	}
 	s.made = true
+	w.queue[s.name] = true // the XR controller watches its own kind
 }
 
 func selString(sel map[string]string) string {
@@ -645,6 +674,207 @@ func subset(sel, labels map[string]string) bool {
 	return true
 }
 
+// xrPolicy reads the update policy ("" = unset) and the revision selector of a stored XR.
+func xrPolicy(o verifsim.Obj) (pol string, sel map[string]string, hasSel bool) {
+	pol, _ = verifsim.Nested(o, "spec", "compositionUpdatePolicy").(string)
+	if m, ok := verifsim.Nested(o, "spec", "compositionRevisionSelector", "matchLabels").(map[string]any); ok {
+		hasSel = true
+		sel = map[string]string{}
+		for k, v := range m {
+			sel[k], _ = v.(string)
+		}
+	}
+	return pol, sel, hasSel
+}
+
+// acceptedSelectors returns the label restriction(s) under which a non-pinned XR selects its
+// revision (more than one = the property leaves the reading open), and the class of the XR.
+func acceptedSelectors(pol string, sel map[string]string, hasSel bool) ([]map[string]string, string) {
+	switch {
+	case pol == string(xpv1.UpdateAutomatic) && hasSel:
+		if hasXPDomainKey(sel) {
+			return []map[string]string{sel}, "xr-automatic+selector(crossplane.io key)"
+		}
+		return []map[string]string{sel}, "xr-automatic+selector"
+	case pol == string(xpv1.UpdateAutomatic):
+		return []map[string]string{nil}, "xr-automatic"
+	case pol == string(xpv1.UpdateManual):
+		// Manual without a reference: the first selection. The property does not say
+		// which revision; the code documents "the latest". The selector belongs to Automatic.
+		return []map[string]string{nil}, "xr-manual-first-selection"
+	case hasSel:
+		// Policy unset (only reachable when the XRD sets no default; the fetcher treats it as
+		// Automatic): the property is silent on whether the selector applies; both readings are accepted.
+		return []map[string]string{nil, sel}, "xr-unset+selector"
+	default:
+		return []map[string]string{nil}, "xr-unset"
+	}
+}
+
+// maxQualifying returns the highest-numbered revision(s) controlled by the Composition whose
+// content's labels contain restrict. The selector clause is evaluated against the content the
+// revision captures (the independent attribution), not against the labels the revision carries.
+func (w *world) maxQualifying(ctx string, restrict map[string]string) map[string]bool {
+	uid := verifsim.MetaString(w.sim.Get(compKey), "uid")
+	var max int64
+	names := map[string]bool{}
+	for n, o := range w.revs() {
+		c, attributed := w.ofRev[n]
+		if !attributed {
+			w.failf("%s: revision %s exists but was never seen being created", ctx, n)
+		}
+		if verifsim.ControllerUID(o) != uid || !subset(restrict, w.pool[c].Labels) {
+			continue
+		}
+		switch m := revNumber(o); {
+		case m > max:
+			max, names = m, map[string]bool{n: true}
+		case m == max:
+			names[n] = true
+		}
+	}
+	return names
+}
+
+func (w *world) xrKey(name string) verifsim.Key {
+	return verifsim.Key{Group: verifenv.XRGVKDefault.Group, Kind: verifenv.XRGVKDefault.Kind, Name: name}
+}
+
+// recQueue is the XR controller's work queue as far as a watch handler can tell: it records what is added.
+type recQueue struct {
+	workqueue.TypedRateLimitingInterface[reconcile.Request]
+	added []reconcile.Request
+}
+
+func (q *recQueue) Add(r reconcile.Request)                       { q.added = append(q.added, r) }
+func (q *recQueue) AddRateLimited(r reconcile.Request)            { q.added = append(q.added, r) }
+func (q *recQueue) AddAfter(r reconcile.Request, _ time.Duration) { q.added = append(q.added, r) }
+
+// deliverEvents hands every pending CompositionRevision create event to the real watch handler of
+// the XR controller (definition.EnqueueForCompositionRevision, wired as in the XRD controller) and
+// judges what it enqueues: every XR of the kind that references the revision's Composition and
+// whose EFFECTIVE update policy is Automatic - effective as the revision fetcher defines it, i.e.
+// unset counts as Automatic - must be enqueued. More may be enqueued (harmless).
+func (w *world) deliverEvents() {
+	for len(w.pending) > 0 {
+		rev := w.pending[0]
+		w.pending = w.pending[1:]
+		w.hist = append(w.hist, "event(created "+rev.GetName()+")")
+		ctx := w.hist[len(w.hist)-1]
+		q := &recQueue{}
+		h := definition.EnqueueForCompositionRevision(resource.CompositeKind(verifenv.XRGVKDefault), w.sim.Client("xr-watch-handler"), logging.NewNopLogger())
+		h.Create(context.Background(), kevent.CreateEvent{Object: rev}, q)
+		enq := map[string]bool{}
+		for _, r := range q.added {
+			enq[r.Name] = true
+		}
+		classes := map[string]bool{}
+		for _, s := range w.xrs {
+			if !s.made {
+				continue
+			}
+			o := w.sim.Get(w.xrKey(s.name))
+			pol, _, _ := xrPolicy(o)
+			ref, _ := verifsim.Nested(o, "spec", "compositionRef", "name").(string)
+			switch {
+			case pol == "":
+				classes["revision-create-event:unset-policy-xr-present"] = true
+			case pol == string(xpv1.UpdateAutomatic):
+				classes["revision-create-event:automatic-xr-present"] = true
+			default:
+				classes["revision-create-event:manual-xr-present"] = true
+			}
+			if ref == rev.GetLabels()[v1.LabelCompositionName] && pol != string(xpv1.UpdateManual) && !enq[s.name] {
+				w.failf("%s: enqueue: a new revision %s of Composition %s was created, but the XR controller's watch handler did not enqueue XR %s (update policy %q, which the revision fetcher treats as Automatic); enqueued: %v", ctx, rev.GetName(), ref, s.name, pol, keys(enq))
+			}
+		}
+		if len(classes) == 0 {
+			classes["revision-create-event:no-xr"] = true
+		}
+		if w.label != nil {
+			for c := range classes {
+				w.label(c)
+			}
+		}
+		for _, s := range w.xrs {
+			if s.made && enq[s.name] {
+				w.queue[s.name] = true
+			}
+		}
+	}
+}
+
+// drainQueue delivers the pending events and reconciles exactly the enqueued XRs (the first
+// attempt of each with the given fault plan, retried fault-free), then evaluates the watch-driven
+// final-state clause.
+func (w *world) drainQueue(plan map[int]verifsim.Fault) {
+	w.deliverEvents()
+	for i, s := range w.xrs {
+		if !w.queue[s.name] {
+			continue
+		}
+		c := w.xrFetch(i, plan)
+		if w.queue[s.name] {
+			c = w.xrFetch(i, nil)
+		}
+		if w.label != nil {
+			w.label("watch-driven:" + c)
+		}
+	}
+	w.checkWatchDriven("queue drained")
+}
+
+// checkWatchDriven: with no event pending and the queue empty, every XR whose effective policy
+// is Automatic references the highest-numbered qualifying revision - although XRs are only
+// reconciled when something enqueued them. An XR is not judged if, since its last reconcile, a
+// revision was renumbered, adopted or lost its owner references: no create event exists for
+// such changes (the handler's contract is "a newly created CompositionRevision"); the XR follows
+// at its next poll, which this clause deliberately does not provide.
+func (w *world) checkWatchDriven(ctx string) {
+	if len(w.pending) > 0 || len(w.queue) > 0 {
+		return
+	}
+	for _, s := range w.xrs {
+		if !s.made {
+			continue
+		}
+		o := w.sim.Get(w.xrKey(s.name))
+		pol, sel, hasSel := xrPolicy(o)
+		if pol == string(xpv1.UpdateManual) {
+			continue
+		}
+		polName := pol
+		if pol == "" {
+			polName = "unset"
+		}
+		if e, ok := w.fetchEpoch[s.name]; !ok || e != w.unnotified {
+			if w.label != nil {
+				w.label("watch-driven-final:not-judged(renumbered/adopted/restored since last reconcile):" + polName)
+			}
+			continue
+		}
+		accept, _ := acceptedSelectors(pol, sel, hasSel)
+		okNames := map[string]bool{}
+		for _, r := range accept {
+			for n := range w.maxQualifying(ctx, r) {
+				okNames[n] = true
+			}
+		}
+		if len(okNames) == 0 {
+			if w.label != nil {
+				w.label("watch-driven-final:none-qualifies:" + polName)
+			}
+			continue
+		}
+		if ref := xrRef(o); !okNames[ref] {
+			w.failf("%s: watch-driven: every event was delivered and every enqueued XR reconciled, but XR %s (update policy %q, selector %v) still references revision %q; the highest-numbered qualifying revision is %v", ctx, s.name, pol, sel, ref, keys(okNames))
+		}
+		if w.label != nil {
+			w.label("watch-driven-final:judged:" + polName)
+		}
+	}
+}
+
 // xrFetch: the XR controller selects the revision for XR slot i, built like
 // composite.NewReconciler builds its CompositionRevisionFetcher. Returns a
 // classification for the label histogram.
@@ -658,42 +888,9 @@ func (w *world) xrFetch(i int, plan map[int]verifsim.Fault) string {
 	key := verifsim.Key{Group: verifenv.XRGVKDefault.Group, Kind: verifenv.XRGVKDefault.Kind, Name: s.name}
 	before := w.sim.Get(key)
 	oldRef := xrRef(before)
-	pol, _ := verifsim.Nested(before, "spec", "compositionUpdatePolicy").(string)
-	var sel map[string]string
-	hasSel := false
-	if m, ok := verifsim.Nested(before, "spec", "compositionRevisionSelector", "matchLabels").(map[string]any); ok {
-		hasSel = true
-		sel = map[string]string{}
-		for k, v := range m {
-			sel[k], _ = v.(string)
-		}
-	}
-
+	pol, sel, hasSel := xrPolicy(before)
 	// Candidates from the store, before the fetch (the fetch never writes revisions).
-	uid := verifsim.MetaString(w.sim.Get(compKey), "uid")
-	revs := w.revs()
-	maxOf := func(restrict map[string]string) (int64, map[string]bool) {
-		var max int64
-		names := map[string]bool{}
-		for n, o := range revs {
-			// The selector clause is evaluated against the content the revision captures (the
-			// independent attribution), not against the labels the revision happens to carry.
-			c, attributed := w.ofRev[n]
-			if !attributed {
-				w.failf("%s: revision %s exists but was never seen being created", ctx, n)
-			}
-			if verifsim.ControllerUID(o) != uid || !subset(restrict, w.pool[c].Labels) {
-				continue
-			}
-			switch m := revNumber(o); {
-			case m > max:
-				max, names = m, map[string]bool{n: true}
-			case m == max:
-				names[n] = true
-			}
-		}
-		return max, names
-	}
+	maxOf := func(restrict map[string]string) map[string]bool { return w.maxQualifying(ctx, restrict) }
 
 	logStart := w.sim.LogLen()
 	run := w.sim.NewRun("xr-controller", plan)
@@ -710,6 +907,12 @@ func (w *world) xrFetch(i int, plan map[int]verifsim.Fault) string {
 		if k < run.N {
 			hit = true
 		}
+	}
+	if hit {
+		w.queue[s.name] = true // a reconcile that fails is retried
+	} else {
+		delete(w.queue, s.name)
+		w.fetchEpoch[s.name] = w.unnotified
 	}
 	after := w.sim.Get(key)
 	newRef := xrRef(after)
@@ -742,35 +945,10 @@ func (w *world) xrFetch(i int, plan map[int]verifsim.Fault) string {
 
 	// Automatic (or nothing selected yet): the highest-numbered revision controlled by the
 	// Composition, restricted by the revision selector if the policy is Automatic.
-	var accept []map[string]string
-	class := "xr-automatic"
-	switch {
-	case pol == string(xpv1.UpdateAutomatic) && hasSel:
-		accept = []map[string]string{sel}
-		class = "xr-automatic+selector"
-		if hasXPDomainKey(sel) {
-			class = "xr-automatic+selector(crossplane.io key)"
-		}
-	case pol == string(xpv1.UpdateAutomatic):
-		accept = []map[string]string{nil}
-	case pol == string(xpv1.UpdateManual):
-		// Manual without a reference: the first selection. The property does not say
-		// which revision; the code documents "the latest". The selector belongs to Automatic.
-		accept = []map[string]string{nil}
-		class = "xr-manual-first-selection"
-	case hasSel:
-		// Policy unset (only reachable when the XRD sets no default): the property is silent on
-		// whether the selector applies; both readings are accepted.
-		accept = []map[string]string{nil, sel}
-		class = "xr-unset+selector"
-	default:
-		accept = []map[string]string{nil}
-		class = "xr-unset"
-	}
+	accept, class := acceptedSelectors(pol, sel, hasSel)
 	okNames := map[string]bool{}
 	for _, r := range accept {
-		_, names := maxOf(r)
-		for n := range names {
+		for n := range maxOf(r) {
 			okNames[n] = true
 		}
 	}
@@ -853,6 +1031,10 @@ type modelSnap struct {
 	synced                                           bool
 	hist                                             int
 	renumbers, adoptions, creates, strips, faultHits int
+	pending                                          []*v1.CompositionRevision
+	queue                                            map[string]bool
+	fetchEpoch                                       map[string]int
+	unnotified                                       int
 }
 
 func (w *world) snapModel() modelSnap {
@@ -866,6 +1048,14 @@ func (w *world) snapModel() modelSnap {
 	}
 	for k, v := range w.done {
 		m.done[k] = v
+	}
+	m.pending = append([]*v1.CompositionRevision(nil), w.pending...)
+	m.queue, m.fetchEpoch, m.unnotified = map[string]bool{}, map[string]int{}, w.unnotified
+	for k, v := range w.queue {
+		m.queue[k] = v
+	}
+	for k, v := range w.fetchEpoch {
+		m.fetchEpoch[k] = v
 	}
 	return m
 }
@@ -881,6 +1071,14 @@ func (w *world) restoreModel(m modelSnap) {
 	for k, v := range m.done {
 		w.done[k] = v
 	}
+	w.pending = append([]*v1.CompositionRevision(nil), m.pending...)
+	w.queue, w.fetchEpoch, w.unnotified = map[string]bool{}, map[string]int{}, m.unnotified
+	for k, v := range m.queue {
+		w.queue[k] = v
+	}
+	for k, v := range m.fetchEpoch {
+		w.fetchEpoch[k] = v
+	}
 	w.synced = m.synced
 	w.hist = w.hist[:m.hist]
 	w.renumbers, w.adoptions, w.creates, w.strips, w.faultHits = m.renumbers, m.adoptions, m.creates, m.strips, m.faultHits
@@ -895,6 +1093,10 @@ func (w *world) restoreModel(m modelSnap) {
 func (w *world) sweep(then int) int {
 	base, mb := w.sim.Snapshot(), w.snapModel()
 	cur, seen, specs := w.cur, copySeen(w.seen), copySpecs(w.specJSON)
+	if outer := w.label; outer != nil {
+		w.label = func(l string) { outer("in-sweep:" + l) }
+		defer func() { w.label = outer }()
+	}
 	probe, _ := w.reconcile(nil)
 	K := probe.N
 	n := 0
@@ -909,6 +1111,11 @@ func (w *world) sweep(then int) int {
 				w.edit(then)
 			}
 			w.reconcile(nil)
+			if len(w.pending) > len(mb.pending) {
+				// A revision was created on this branch (possibly by the faulted reconcile whose reply
+				// was lost): its create event reaches the XR controller's watch handler.
+				w.drainQueue(nil)
+			}
 			n++
 		}
 	}
@@ -958,8 +1165,24 @@ func TestVerifC12Histories(t *testing.T) {
 		pool := genPool(t)
 		rec.Eval()
 		w := newWorld(pool, rapid.IntRange(0, len(pool)-1).Draw(t, "first"), func(f string, a ...any) { t.Fatalf(f, a...) })
+		w.label = rec.Label
+		// In poll-free histories XRs are reconciled only when something enqueued them (their own
+		// creation or change, or the watch handler for CompositionRevision create events).
+		pollFree := rapid.Bool().Draw(t, "pollFree")
+		rec.Labelf("history:poll-free=%v", pollFree)
 		sweeps := 0
 		t.Repeat(map[string]func(*rapid.T){
+			"drain": func(t *rapid.T) {
+				if len(w.pending) == 0 && len(w.queue) == 0 {
+					t.Skip("nothing pending")
+				}
+				plan := map[int]verifsim.Fault{}
+				if rapid.IntRange(0, 3).Draw(t, "faulty") == 0 {
+					plan[rapid.IntRange(0, 3).Draw(t, "call")] = rapid.SampledFrom(faultKinds).Draw(t, "fault")
+				}
+				w.drainQueue(plan)
+				rec.Label("drain")
+			},
 			"edit": func(t *rapid.T) {
 				// Mostly a real change; now and then a write that changes nothing.
 				i := (w.cur + rapid.IntRange(1, len(pool)-1).Draw(t, "content")) % len(pool)
@@ -1030,8 +1253,8 @@ func TestVerifC12Histories(t *testing.T) {
 						made = append(made, i)
 					}
 				}
-				if len(made) == 0 {
-					t.Skip("no XR yet")
+				if len(made) == 0 || pollFree {
+					t.Skip("no XR yet, or no polling in this history")
 				}
 				rec.Label(w.xrFetch(rapid.SampledFrom(made).Draw(t, "xr"), plan))
 			},
@@ -1039,6 +1262,8 @@ func TestVerifC12Histories(t *testing.T) {
 		})
 		// Faults stop: one reconcile must succeed and establish every invariant; then every XR is fetched.
 		w.reconcile(nil)
+		// Watch-driven end: deliver the events, reconcile only what was enqueued, judge. Then poll every XR.
+		w.drainQueue(nil)
 		for i := range w.xrs {
 			if c := w.xrFetch(i, nil); c != "xr-absent" {
 				rec.Label("final:" + c)
@@ -1101,6 +1326,8 @@ func runPinnedPool(pool []content, fail func(string, ...any), steps []step) *wor
 			w.xrFetch(s.arg, s.plan)
 		case "sweep":
 			w.sweep(s.arg)
+		case "drain":
+			w.drainQueue(s.plan)
 		default:
 			panic(s.op)
 		}
@@ -1166,6 +1393,24 @@ func TestVerifC12PinnedDomainLabels(t *testing.T) {
 		if got := withoutReserved(verifsim.Labels(w.revs()[name])); !sameLabels(got, xpPool[c].Labels) {
 			t.Fatalf("revision %s of content %d has labels %v, want %v", name, c, got, xpPool[c].Labels)
 		}
+	}
+}
+
+// TestVerifC12PinnedWatchDriven: XRs are reconciled only when enqueued. The watch handler for
+// CompositionRevision create events must enqueue every XR of the Composition whose policy the
+// revision fetcher treats as Automatic - including XRs without spec.compositionUpdatePolicy.
+// (Class of a seeded change that made the handler skip XRs whose policy is unset.)
+func TestVerifC12PinnedWatchDriven(t *testing.T) {
+	w := runPinned(func(f string, a ...any) { t.Fatalf(f, a...) }, []step{{op: "create", arg: 0}, {op: "reconcile"},
+		{op: "xrSet", arg: 0, arg2: 0}, {op: "xrSet", arg: 1, arg2: 1}, {op: "xrSet", arg: 2, arg2: 2}, {op: "drain"},
+		{op: "edit", arg: 1}, {op: "reconcile"}, {op: "drain"},
+		{op: "edit", arg: 2}, {op: "reconcile", plan: map[int]verifsim.Fault{2: {Kind: verifsim.ErrAfter, Err: "timeout"}}}, {op: "drain"}})
+	ref := func(i int) string { return xrRef(w.sim.Get(w.xrKey(w.xrs[i].name))) }
+	if ref(0) != w.revOf[2] || ref(1) != w.revOf[2] || ref(2) != w.revOf[0] {
+		t.Fatalf("XR references after the queue drained: unset=%s automatic=%s (want %s) manual=%s (want %s); %s", ref(0), ref(1), w.revOf[2], ref(2), w.revOf[0], w.describeRevs())
+	}
+	if len(w.pending) != 0 || len(w.queue) != 0 {
+		t.Fatalf("pending events %d, queue %v", len(w.pending), w.queue)
 	}
 }
 
